@@ -40,6 +40,9 @@ CHECKS = {
  "C13": ("exploration", "runtime monitor: whole-vs-pieces twin parses at every cut position, prefix classifier for the more-input decision, fresh-vs-history twin parses on the interpreter's own parser, last-token twin evaluations",
          "Every single cut (exhaustive), every pair of cuts of short texts and random multi-cuts of corpus windows, generated programs and infix renderings are delivered to the real parser and compared with the whole-text parse; intermediate returns are judged by a bracket/string/comment classifier; histories of successful, failed and abandoned loads must not change how a probe is read; a final token without trailing whitespace must not be lost through EvalString.",
          "Trusted: the 60-line prefix classifier (only consulted where it is certain); only texts valid as a whole are cut.", "DESIGN.md §4.C13"),
+ "C15": ("exploration", "runtime monitor: value of random ^templates vs independent substitution function; macro call vs hand-written expansion in a twin interpreter; caller state before/after expansion",
+         "Random nested templates with unquotes and splices at every position are evaluated by the real VM and compared structurally with an independent substitution over the same AST; ten macro shapes are called at six kinds of call site with effectful arguments and compared (value, trace) with the hand-written expansion in a twin interpreter; macexpand must print the model expansion, run nothing and leave stack depths, global names and global values untouched.",
+         "Trusted: the 40-line substitution function; hash literals in templates denote (hash k v ...) lists as on the unchanged tree.", "DESIGN.md §4.C15"),
 }
 
 NA_REASON = {}
